@@ -101,6 +101,7 @@ type OblEvidence struct {
 	SolverS    float64        `json:"solver_s"`
 	WallS      float64        `json:"wall_s"`
 	Reached    map[string]int `json:"reached,omitempty"`
+	Vacuous    bool           `json:"vacuous_parameter_set,omitempty"`
 	Asserts    map[string]int `json:"assertions_checked,omitempty"`
 	Incomplete map[string]int `json:"incomplete,omitempty"`
 	Cuts       map[string]int `json:"cuts_outside_claim,omitempty"`
@@ -361,6 +362,13 @@ func (r *runner) run(t0 time.Time) int {
 				Unknown: res.Stats.Unknown, ModelHits: res.Stats.ModelHits, SolverS: res.Stats.SolveDur.Seconds(), WallS: res.Wall.Seconds(),
 				Reached: res.Reached, Asserts: res.AssertsChecked, Functions: len(res.Cov), MaxSteps: res.StepsMax, Stubs: o.Stubs,
 				Violations: res.ViolationCount}
+			if len(o.Reach) > 0 && len(res.Reached) == 0 && len(res.ViolationCount) == 0 {
+				// per-parameter-set vacuity witness: the obligation-level check below is satisfied
+				// as soon as ANY parameter set reaches the label; a set whose every path was
+				// infeasible or ended early decides nothing and is named here and in the evidence
+				ev.Vacuous = true
+				fmt.Fprintf(os.Stderr, "WARNING vacuity: %s %v reached none of %v (outcomes %v): this parameter set decided nothing\n", o.Name, params, o.Reach, res.Outcomes)
+			}
 			if len(res.Incomplete) > 0 {
 				ev.Incomplete = res.Incomplete
 			}
